@@ -587,7 +587,11 @@ func (g *gen) intrinsic(key string, callee *ssa.Function, args []Val, pos token.
 	case "strings.Replace":
 		// only n == 1 has a direct SMT counterpart
 		if args[3].T == "1" {
-			return strVal(app("str.replace", args[0].T, args[1].T, args[2].T)), true
+			r := app("str.replace", args[0].T, args[1].T, args[2].T)
+			// valid lemma about str.replace that the string solvers do not always find by themselves
+			g.assumeGlobal(implies(app("str.prefixof", args[1].T, args[0].T),
+				eq(r, app("str.++", args[2].T, app("str.substr", args[0].T, app("str.len", args[1].T), app("-", app("str.len", args[0].T), app("str.len", args[1].T)))))))
+			return strVal(r), true
 		}
 	case "strings.EqualFold":
 	case "strconv.Itoa":
